@@ -8,6 +8,7 @@
 
 mod engine;
 mod gen;
+mod oracle;
 mod props;
 
 use engine::run::*;
@@ -55,6 +56,7 @@ fn main() {
             &args[7],
         ),
         "one" if args.len() >= 5 => one_main(find(&args[2]), &args[3], &args[4]),
+        "probe-walk" if args.len() >= 3 => props::train_run::probe_walk_main(&args[2]),
         _ => usage(),
     };
     std::process::exit(code);
